@@ -181,6 +181,209 @@ Example C07_example_reversed_view :
   strided_to_list s = [4; 3; 2; 1] /\ strided_try_as_slice s = None.
 Proof. split; reflexivity. Qed.
 
+
+(* ==== mutable accessors (Vec1Mut::get_mut / uget_mut / try_as_slice_mut) ============================================ *)
+(* a write at logical index i is a write at index i of the logical sequence; an out-of-range index is rejected *)
+Theorem C07_vec_set : forall (A : Type) (l : list A) (i : nat) (v : A),
+  checked_set (length l) (list_uset l) i v = if i <? length l then Some (update l i v) else None.
+Proof. exact @checked_set_list. Qed.
+
+Theorem C07_ring_uset : forall (A : Type) (r : ring A), ring_wf r -> forall (i : nat) (v : A),
+  option_map (@ring_to_list A) (ring_uset r i v) = if i <? rlen r then Some (update (ring_to_list r) i v) else None.
+Proof. exact @ring_uset_to_list. Qed.
+
+Theorem C07_ring_get_mut : forall (A : Type) (r : ring A), ring_wf r -> forall (i : nat) (v : A),
+  option_map (@ring_to_list A) (checked_set (rlen r) (ring_uset r) i v)
+  = if i <? rlen r then Some (update (ring_to_list r) i v) else None.
+Proof. exact @ring_checked_set_to_list. Qed.
+
+Theorem C07_ring_uset_wf : forall (A : Type) (r : ring A), ring_wf r -> forall (i : nat) (v : A) (r' : ring A),
+  ring_uset r i v = Some r' -> ring_wf r'.
+Proof. exact @ring_uset_wf. Qed.
+
+Theorem C07_ring_uset_layout : forall (A : Type) (r : ring A) (i : nat) (v : A) (r' : ring A),
+  ring_uset r i v = Some r' -> rhead r' = rhead r /\ rlen r' = rlen r /\ rcap r' = rcap r.
+Proof. exact @ring_uset_layout. Qed.
+
+Theorem C07_ring_get_after_set : forall (A : Type) (r r' : ring A) (i : nat) (v : A) (j : nat),
+  ring_wf r -> ring_uset r i v = Some r' -> ring_get r' j = if j =? i then Some v else ring_get r j.
+Proof. exact @ring_get_uset. Qed.
+
+(* try_as_slice_mut is offered exactly when try_as_slice is; a write through it at index k IS the write at
+   logical index k (same resulting buffer), hence the update of the logical sequence at k *)
+Theorem C07_ring_slice_mut_offered : forall (A : Type) (r : ring A), ring_wf r -> forall (k : nat) (v : A),
+  ring_slice_mut_set r k v = None <-> ring_try_as_slice r = None.
+Proof. exact @ring_slice_mut_offered. Qed.
+
+Theorem C07_ring_slice_mut_is_set : forall (A : Type) (r : ring A), ring_wf r ->
+  forall (k : nat) (v : A) (w : option (ring A)), ring_slice_mut_set r k v = Some w -> w = ring_uset r k v.
+Proof. exact @ring_slice_mut_is_uset. Qed.
+
+Theorem C07_ring_slice_mut : forall (A : Type) (r : ring A), ring_wf r ->
+  forall (k : nat) (v : A) (w : option (ring A)), ring_slice_mut_set r k v = Some w ->
+  option_map (@ring_to_list A) w = if k <? rlen r then Some (update (ring_to_list r) k v) else None.
+Proof. exact @ring_slice_mut_to_list. Qed.
+
+Theorem C07_ring_slice_after_set : forall (A : Type) (r r' : ring A) (i : nat) (v : A),
+  ring_wf r -> ring_uset r i v = Some r' ->
+  ring_try_as_slice r' = option_map (fun l => update l i v) (ring_try_as_slice r).
+Proof. exact @ring_try_as_slice_uset. Qed.
+
+(* ndarray mutable views: every non-zero stride (a mutable view never aliases two logical positions) *)
+Theorem C07_strided_uset : forall (A : Type) (s : strided A), strided_wf s -> (sstep s <> 0)%Z ->
+  forall (i : nat) (v : A),
+  option_map (@strided_to_list A) (strided_uset s i v)
+  = if i <? slen s then Some (update (strided_to_list s) i v) else None.
+Proof. exact @strided_uset_to_list. Qed.
+
+Theorem C07_strided_get_mut : forall (A : Type) (s : strided A), strided_wf s -> (sstep s <> 0)%Z ->
+  forall (i : nat) (v : A),
+  option_map (@strided_to_list A) (checked_set (slen s) (strided_uset s) i v)
+  = if i <? slen s then Some (update (strided_to_list s) i v) else None.
+Proof. exact @strided_checked_set_to_list. Qed.
+
+Theorem C07_strided_uset_wf : forall (A : Type) (s : strided A), strided_wf s -> forall (i : nat) (v : A) (s' : strided A),
+  strided_uset s i v = Some s' -> strided_wf s'.
+Proof. exact @strided_uset_wf. Qed.
+
+Theorem C07_strided_get_after_set : forall (A : Type) (s s' : strided A) (i : nat) (v : A) (j : nat),
+  strided_wf s -> (sstep s <> 0)%Z -> strided_uset s i v = Some s' ->
+  strided_get s' j = if j =? i then Some v else strided_get s j.
+Proof. exact @strided_get_uset. Qed.
+
+Theorem C07_strided_slice_mut_offered : forall (A : Type) (s : strided A) (k : nat) (v : A),
+  strided_slice_mut_set s k v = None <-> strided_try_as_slice s = None.
+Proof. exact @strided_slice_mut_offered. Qed.
+
+Theorem C07_strided_slice_mut_is_set : forall (A : Type) (s : strided A) (k : nat) (v : A) (w : option (strided A)),
+  strided_slice_mut_set s k v = Some w -> w = strided_uset s k v.
+Proof. exact @strided_slice_mut_is_uset. Qed.
+
+Theorem C07_strided_slice_mut : forall (A : Type) (s : strided A), strided_wf s -> (sstep s <> 0)%Z ->
+  forall (k : nat) (v : A) (w : option (strided A)), strided_slice_mut_set s k v = Some w ->
+  option_map (@strided_to_list A) w = if k <? slen s then Some (update (strided_to_list s) k v) else None.
+Proof. exact @strided_slice_mut_to_list. Qed.
+
+(* a reversed (or any negative-stride) view of two or more elements offers no mutable slice *)
+Theorem C07_strided_reversed_no_slice_mut : forall (A : Type) (s : strided A) (k : nat) (v : A),
+  (sstep s < 0)%Z -> 2 <= slen s -> strided_slice_mut_set s k v = None.
+Proof. exact @strided_reversed_no_slice_mut. Qed.
+
+(* the defect class repaired for try_as_slice (memory order) would have been a defect here too: witness *)
+Theorem C07_memory_order_mut_refuted :
+  exists (s : strided nat) (w : strided nat), strided_wf s /\ (sstep s <> 0)%Z /\
+    strided_memory_order_mut_set s 0 9 = Some (Some w) /\
+    strided_to_list s = [4; 3; 2; 1] /\ strided_to_list w = [4; 3; 2; 9] /\
+    update (strided_to_list s) 0 9 = [9; 3; 2; 1].
+Proof. exact strided_memory_order_mut_refuted. Qed.
+
+(* the list laws the statements above are phrased with *)
+Theorem C07_update_nth : forall (A : Type) (l : list A) (i : nat) (v : A) (j : nat),
+  nth_error (update l i v) j = if andb (j =? i) (i <? length l) then Some v else nth_error l j.
+Proof. exact @nth_error_update. Qed.
+
+Theorem C07_update_length : forall (A : Type) (l : list A) (i : nat) (v : A), length (update l i v) = length l.
+Proof. exact @update_length. Qed.
+
+Theorem C07_update_same : forall (A : Type) (l : list A) (i : nat) (x : A), nth_error l i = Some x -> update l i x = l.
+Proof. exact @update_same. Qed.
+
+Theorem C07_update_twice : forall (A : Type) (l : list A) (i : nat) (v w : A), update (update l i v) i w = update l i w.
+Proof. exact @update_update. Qed.
+
+Theorem C07_update_comm : forall (A : Type) (l : list A) (i j : nat) (v w : A), i <> j ->
+  update (update l i v) j w = update (update l j w) i v.
+Proof. exact @update_comm. Qed.
+
+(* ==== valid get (vget / uvget) and the element-wise iterators (to_opt_iter / iter_cast / opt_iter_cast) ============= *)
+(* vget c i = match get c i with Some x => if is_none x then None else Some (unwrap x) | None => None end *)
+Theorem C07_vget : forall (T I : Type) (N : IsNone T I) (l : list T) (i : nat),
+  valid_get to_opt (length l) (nth_error l) i
+  = match nth_error l i with Some x => if is_none x then None else Some (unwrap x) | None => None end.
+Proof. intros. apply valid_get_spec. Qed.
+
+Theorem C07_uvget : forall (T I : Type) (to_opt : T -> option I) (l : list T) (i : nat),
+  i < length l -> uvalid_get to_opt (nth_error l) i = valid_get to_opt (length l) (nth_error l) i.
+Proof. exact @uvalid_get_spec. Qed.
+
+Theorem C07_ring_vget : forall (T I : Type) (to_opt : T -> option I) (r : ring T) (i : nat), ring_wf r ->
+  valid_get to_opt (rlen r) (ring_get r) i
+  = match nth_error (ring_to_list r) i with Some x => to_opt x | None => None end.
+Proof. exact @ring_valid_get. Qed.
+
+Theorem C07_strided_vget : forall (T I : Type) (to_opt : T -> option I) (s : strided T) (i : nat), strided_wf s ->
+  valid_get to_opt (slen s) (strided_get s) i
+  = match nth_error (strided_to_list s) i with Some x => to_opt x | None => None end.
+Proof. exact @strided_valid_get. Qed.
+
+Theorem C07_chunked_vget : forall (T I : Type) (to_opt : option T -> option I) (c : chunked T) (i : nat),
+  valid_get to_opt (chunked_len c) (chunked_get c) i
+  = match nth_error (chunked_to_list c) i with Some x => to_opt x | None => None end.
+Proof. exact @chunked_valid_get. Qed.
+
+(* position i of to_opt_iter is vget(i); opt_iter_cast is to_opt_iter followed by the cast; iter_cast is get then cast *)
+Theorem C07_to_opt_iter : forall (T I : Type) (to_opt : T -> option I) (l : list T) (i : nat),
+  nth_error (to_opt_iter_m to_opt l) i
+  = if i <? length l then Some (valid_get to_opt (length l) (nth_error l) i) else None.
+Proof. exact @to_opt_iter_nth. Qed.
+
+Theorem C07_iter_cast : forall (T U : Type) (cast : T -> U) (l : list T) (i : nat),
+  nth_error (iter_cast_m cast l) i = option_map cast (nth_error l i).
+Proof. exact @iter_cast_nth. Qed.
+
+Theorem C07_opt_iter_cast : forall (T I U : Type) (to_opt : T -> option I) (cast : I -> U) (l : list T) (i : nat),
+  nth_error (opt_iter_cast_m to_opt cast l) i
+  = if i <? length l then Some (option_map cast (valid_get to_opt (length l) (nth_error l) i)) else None.
+Proof. exact @opt_iter_cast_nth. Qed.
+
+Theorem C07_elementwise_lengths : forall (T I U V : Type) (to_opt : T -> option I) (cast : T -> U) (cast' : I -> V) (l : list T),
+  length (to_opt_iter_m to_opt l) = length l /\ length (iter_cast_m cast l) = length l
+  /\ length (opt_iter_cast_m to_opt cast' l) = length l.
+Proof. exact @elementwise_lengths. Qed.
+
+(* a write is seen by the valid get *)
+Theorem C07_vget_after_set : forall (T I : Type) (to_opt : T -> option I) (l : list T) (i : nat) (v : T) (j : nat),
+  i < length l ->
+  valid_get to_opt (length (update l i v)) (nth_error (update l i v)) j
+  = if j =? i then to_opt v else valid_get to_opt (length l) (nth_error l) j.
+Proof. exact @valid_get_update. Qed.
+
+(* non-vacuity of the new implications *)
+Example C07_example_ring_set :
+  let r := {| rbuf := [3; 4; 1; 2]; rhead := 2; rlen := 4 |} in
+  ring_wf r /\ option_map (@ring_to_list nat) (ring_uset r 3 9) = Some [1; 2; 3; 9]
+  /\ ring_slice_mut_set r 0 9 = None /\ ring_uset r 4 9 = None.
+Proof. cbv zeta. unfold ring_wf, rcap. cbn. repeat split; lia. Qed.
+
+Example C07_example_ring_slice_mut :
+  let r := {| rbuf := [0; 1; 2; 3]; rhead := 1; rlen := 3 |} in
+  ring_wf r /\ exists w, ring_slice_mut_set r 2 9 = Some (Some w) /\ ring_to_list w = [1; 2; 9]
+  /\ ring_try_as_slice r = Some [1; 2; 3].
+Proof. cbv zeta. unfold ring_wf, rcap. cbn. split; [lia|]. eexists. repeat split. Qed.
+
+Example C07_example_reversed_set :
+  let s := {| sbase := [1; 2; 3; 4]; soff := 3; sstep := (-1)%Z; slen := 4 |} in
+  strided_wf s /\ (sstep s <> 0)%Z /\ (sstep s < 0)%Z /\ 2 <= slen s
+  /\ option_map (@strided_to_list nat) (strided_uset s 0 9) = Some [9; 3; 2; 1]
+  /\ strided_slice_mut_set s 0 9 = None.
+Proof.
+  cbv zeta. split; [|cbn; repeat split; lia].
+  intros i Hi. unfold spos. cbn [soff sstep sbase slen length] in *. lia.
+Qed.
+
+Example C07_example_standard_slice_mut :
+  let s := {| sbase := [1; 2; 3; 4]; soff := 1; sstep := 1%Z; slen := 3 |} in
+  exists w, strided_slice_mut_set s 1 9 = Some (Some w) /\ strided_to_list w = [2; 9; 4]
+  /\ strided_uset s 1 9 = Some w.
+Proof. cbv zeta. eexists. repeat split. Qed.
+
+Example C07_example_vget :
+  valid_get (fun x : nat => if x =? 0 then None else Some x) 3 (nth_error [5; 0; 7]) 0 = Some 5
+  /\ valid_get (fun x : nat => if x =? 0 then None else Some x) 3 (nth_error [5; 0; 7]) 1 = None
+  /\ valid_get (fun x : nat => if x =? 0 then None else Some x) 3 (nth_error [5; 0; 7]) 3 = None
+  /\ update [5; 0; 7] 1 4 = [5; 4; 7] /\ nth_error [5; 0; 7] 2 = Some 7.
+Proof. repeat split. Qed.
+
 Print Assumptions C07_ring_length.
 Print Assumptions C07_ring_get.
 Print Assumptions C07_ring_try_as_slice.
@@ -205,3 +408,37 @@ Print Assumptions C07_polars_out_rolling2_apply.
 Print Assumptions C07_polars_out_rolling2_apply_idx.
 Print Assumptions C07_polars_out_feature.
 Print Assumptions C07_polars_collect.
+Print Assumptions C07_vec_set.
+Print Assumptions C07_ring_uset.
+Print Assumptions C07_ring_get_mut.
+Print Assumptions C07_ring_uset_wf.
+Print Assumptions C07_ring_uset_layout.
+Print Assumptions C07_ring_get_after_set.
+Print Assumptions C07_ring_slice_mut_offered.
+Print Assumptions C07_ring_slice_mut_is_set.
+Print Assumptions C07_ring_slice_mut.
+Print Assumptions C07_ring_slice_after_set.
+Print Assumptions C07_strided_uset.
+Print Assumptions C07_strided_get_mut.
+Print Assumptions C07_strided_uset_wf.
+Print Assumptions C07_strided_get_after_set.
+Print Assumptions C07_strided_slice_mut_offered.
+Print Assumptions C07_strided_slice_mut_is_set.
+Print Assumptions C07_strided_slice_mut.
+Print Assumptions C07_strided_reversed_no_slice_mut.
+Print Assumptions C07_memory_order_mut_refuted.
+Print Assumptions C07_update_nth.
+Print Assumptions C07_update_length.
+Print Assumptions C07_update_same.
+Print Assumptions C07_update_twice.
+Print Assumptions C07_update_comm.
+Print Assumptions C07_vget.
+Print Assumptions C07_uvget.
+Print Assumptions C07_ring_vget.
+Print Assumptions C07_strided_vget.
+Print Assumptions C07_chunked_vget.
+Print Assumptions C07_to_opt_iter.
+Print Assumptions C07_iter_cast.
+Print Assumptions C07_opt_iter_cast.
+Print Assumptions C07_elementwise_lengths.
+Print Assumptions C07_vget_after_set.
